@@ -181,6 +181,10 @@ class StubsStringGenerator:
         for import_ in self.module_imports:
             import_parts = import_.split(".")
 
+            # A bare name (a type that is only named in a docstring) has no module it could be imported from
+            if len(import_parts) < 2:
+                continue
+
             from_ = ".".join(import_parts[0:-1])
             from_ = _convert_name_to_convention(from_, self.naming_convention)
             from_ = _replace_if_safeds_keyword_in_path(from_)
